@@ -398,6 +398,12 @@ def write_case(d, k, case):
     opts = case.get("opts", {})
     path = os.path.join(d, "%05d.%s" % (k, fmt))
     if fmt == "vcd":
+        if opts.get("exponent") is not None:
+            e = opts["exponent"]
+            unit = max(u for u in (0, -3, -6, -9, -12, -15) if u <= e) if e < 0 else 0
+            text = "%d %s" % (10 ** (e - unit), {0: "s", -3: "ms", -6: "us", -9: "ns", -12: "ps", -15: "fs"}[unit])
+            fg.write_vcd(path, items, timescale=text)
+            return "wobs " + path + (" st" if opts.get("single_thread") else ""), fg.expected_wobs(items, ts=fst_ts(e))
         fg.write_vcd(path, items)
         return "wobs " + path + (" st" if opts.get("single_thread") else ""), fg.expected_wobs(items)
     if fmt == "fst":
@@ -479,6 +485,11 @@ def tri_cases(rng, tier):
             cases.append({"fmt": fmt, "spec": spec, "opts": {}, "klass": "file-%s-%s" % (fmt, klass), "key": ("tri", klass, k)})
         if klass != "random" or k % 4 == 0:
             cases.append({"fmt": "vcd", "spec": spec, "opts": {"single_thread": True}, "klass": "file-vcd-st-%s" % klass, "key": ("tri", klass, k)})
+        if klass == "random" and k % 3 == 0:
+            # the same design under another time scale (VCD and FST can express it; a GHW file is always in fs)
+            e = [-14, -13, -12, -11, -10, -9, -8, -7, -6, -5, -4, -3, -2, -1, 0, 1, 2][(k // 3) % 17]
+            for fmt in ("vcd", "fst"):
+                cases.append({"fmt": fmt, "spec": spec, "opts": {"exponent": e}, "klass": "file-%s-timescale" % fmt, "key": ("tri-ts", e, k)})
     return cases
 
 
